@@ -7,6 +7,7 @@ import (
 	"context"
 	"fmt"
 	"math"
+	"regexp"
 	"strings"
 	"sync"
 
@@ -140,8 +141,19 @@ var dagreOnly = []string{"dagre"}
 var elkOnly = []string{"elk"}
 
 // errClass reduces an error message to a mechanism-level class (no names, no numbers).
+var jsErrRe = regexp.MustCompile(`\b(SyntaxError|TypeError|ReferenceError|RangeError|EvalError|URIError|InternalError|GoError)\b`)
+
 func errClass(err error) string {
 	s := err.Error()
+	if m := jsErrRe.FindString(s); m != "" {
+		// an error raised inside the JavaScript engine bridge: the JS error type is the mechanism; the
+		// message text depends on the characters that leaked into the script
+		pre := s
+		if i := strings.Index(s, ":"); i > 0 {
+			pre = s[:i]
+		}
+		return pre + ": js " + m
+	}
 	// strip quoted parts and digits
 	var b strings.Builder
 	inq := false
